@@ -138,6 +138,9 @@ impl MonitorSet {
                             self.fail("append-not-contiguous", format!("leader {} of term {} emitted MsgAppend to {} anchored at index {} whose entry #{} has index {} (expected {}); {} entries, batch_append = {}", id, post.term, m.to, m.index, k, e.index, idx, m.entries.len(), post.batch));
                             return;
                         }
+                        if idx < post.first {
+                            continue; // queued earlier (batching), compacted from the store since
+                        }
                         if post.entry(idx) != Some(&ek(e)) {
                             self.fail("append-not-own-log", format!("leader {} of term {} emitted MsgAppend to {} whose entry #{} (index {}, term {}) is not entry {} of its log ({:?})", id, post.term, m.to, k, e.index, e.term, idx, post.entry(idx).map(|x| x.show())));
                             return;
